@@ -11,6 +11,7 @@
 -/
 import Saltpack.Proofs.RoundTripEnc
 import Saltpack.Proofs.MsgpackRT
+import Saltpack.Proofs.WireRT
 import Saltpack.Toy
 
 namespace Saltpack.Props.C01
@@ -97,6 +98,33 @@ theorem C01_forms_agree (P : Prims) (valid : Validator) (kr : Keyring) (hr : Hea
 theorem C01_wire (v : Msgpack.Val) (hv : ValWF v) (rest : Bytes) :
     Msgpack.parse1 (Msgpack.encode v ++ rest) = .ok (v, rest) :=
   parse1_encode v hv rest
+
+/-- **Round trip on the emitted BYTES.** The message `Seal` emits, split the way
+    a receiver's MessagePack stream splits it (`Wire.splitEnc`: header bytes,
+    header, payload packets, clean end), opens at every recipient position to the
+    plaintext with the same key info as `C01_roundtrip` — the composition of the
+    structure-level round trip with the MessagePack round trip of every packet.
+    (Size hypotheses: everything fits MessagePack's 32-bit lengths; real
+    parameters satisfy them — see the `example` in Proofs/WireRT.lean.) -/
+theorem C01_roundtrip_bytes (P : Prims) (hP : P.Lawful) (bs : Nat) (hbs : 0 < bs) (hbs32 : bs + 16 < 2 ^ 32)
+    (v : Version) (hv : v = v1 ∨ v = v2)
+    (sender : Option Bytes) (rs : List Encrypt.Recipient) (eph payloadKey pt : Bytes)
+    (hpk : payloadKey.length = 32)
+    (hnamed : ∀ s, sender = some s → P.boxPub s ≠ P.boxPub eph)
+    (hpub : ∀ r ∈ rs, r.hidden = false → r.pub ≠ [])
+    (hblocks : (Encrypt.chunkPlan v bs pt).length < 2 ^ 64 - 1)
+    (i : Nat) (hi : i < rs.length) (sk : Bytes) (hsk : (rs.getD i default).pub = P.boxPub sk)
+    (hns : NoSpuriousOpen P v eph payloadKey rs i sk)
+    (L : Nat) (hL : ∀ r ∈ rs, r.pub.length ≤ L) (hsmall : 145 + rs.length * (L + 63) < 2 ^ 32)
+    (msg : Bytes) (hmsg : Encrypt.sealWith P bs v sender rs eph payloadKey pt = .ok msg) :
+    ∃ hr ps, Wire.splitEnc msg = .ok (hr, ps) ∧
+      Decrypt.openAll P knownMajor (faithfulKeyring P [sk]) hr ps =
+        .ok ({ senderKey := P.boxPub (sender.getD eph), senderIsAnon := sender.isNone,
+               receiverKey := sk, receiverIsAnon := (rs.getD i default).hidden,
+               namedReceivers := (rs.filter (fun r => !r.hidden)).map (·.pub),
+               numAnonReceivers := if (rs.getD i default).hidden then (rs.filter (·.hidden)).length else 0 }, pt) :=
+  enc_roundtrip_bytes P hP bs hbs hbs32 v hv sender rs eph payloadKey pt hpk hnamed hpub hblocks i hi sk hsk hns
+    L hL hsmall msg hmsg
 
 /-! ## non-vacuity -/
 example : Toy.prims.Lawful := Toy.lawful
